@@ -38,6 +38,8 @@ func runC18(c *Ctx) {
 	defer c18HpackTable(c)
 	c.Rule("C18.W10", "a header block the connection HPACK encoder produced is always written", 4)
 	defer c18EncodedBlockWritten(c)
+	c.Rule("C18.W11", "the splitting loops of writeHeaders are left only after a frame carrying END_HEADERS", 4)
+	defer c18LastFragmentEndsHeaders(c)
 	c.Rule("C18.W8", "a new client stream gets its send window and is registered for SETTINGS updates under one hold of the connection mutex", 1)
 	defer c18WindowInitAtomic(c)
 	c.NotDecided = append(c.NotDecided, "wire compatibility of frames and HPACK with golang.org/x/net/http2 (value-level)", "behaviour under concrete WINDOW_UPDATE schedules (liveness of the wait)", "SETTINGS handling that updates maxFrameSize / initial window")
